@@ -1,7 +1,7 @@
 #!/bin/sh
 # adopt_seed.sh <Cxx> [dirname]: confirm a sub-agent's seeded change in its scratch worktree /tmp/wt_<Cxx>
 # (demo passes clean / fails mutated, suite's stable passes unchanged), copy patch+demo+notes to seeded/<dirname>/,
-# run the property's check against it, and remove the worktree.
+# run the property's check against the worktree (VC2_REPO; /repo itself is not touched), and remove the worktree.
 ID="$1"; NAME="${2:-$1}"; WT="/tmp/wt_$NAME"
 V="$(cd "$(dirname "$0")/.." && pwd)"
 [ -d "$WT" ] || { echo "no worktree $WT"; exit 2; }
@@ -12,5 +12,5 @@ cp "$WT/demo.py" "$V/seeded/$NAME/demo.py"; cp "$WT/NOTES.md" "$V/seeded/$NAME/N
 sh "$V/harness/confirm_seed.sh" "$WT" "$V/seeded/$NAME/confirm.json" | tail -12
 echo "--- check against the change:"
 LID=$(echo "$ID" | tr 'A-Z' 'a-z')
-if [ -f "$V/harness/props/$LID.py" ]; then sh "$V/harness/try_seed.sh" "$V/seeded/$NAME/patch.diff" "$ID" quick; else echo "(check $ID not built yet: stored only)"; fi
+if [ -f "$V/harness/props/$LID.py" ]; then sh "$V/harness/try_seed_wt.sh" "$WT" "$ID" quick; else echo "(check $ID not built yet: stored only)"; fi
 git -C /repo worktree remove --force "$WT" && echo "worktree removed"
